@@ -43,6 +43,20 @@ def generate(rng, tier):
             cs.append(pk_case(bytes(k), "N-one-byte-changed"))
             k = bytearray(32); k[i] ^= delta
             cs.append(pk_case(bytes(k), "zero-one-byte-changed"))
+    # relatives of N and of 0 under word-level symmetries (a comparison done on words, halves, folds or
+    # with combined differences must still single out exactly N)
+    rel = [NLE[16:] + NLE[:16], NLE[::-1], bytes(a ^ b for a, b in zip(NLE[:16], NLE[16:])) + bytes(16),
+           bytes(16) + bytes(a ^ b for a, b in zip(NLE[:16], NLE[16:])), NLE[:16] + bytes(16), bytes(16) + NLE[16:],
+           NLE[:16] + NLE[:16], NLE[16:] + NLE[16:], bytes(NLE[i ^ 1] for i in range(32)), bytes(b ^ 0xff for b in NLE)]
+    for k in rel:
+        cs.append(pk_case(k, "N-symmetry-relative"))
+    for w in (2, 4, 8, 16):
+        for i in range(0, 32 - w, max(1, w // 2)):
+            for delta in (1, 0x80, rng.randint(1, 255)):
+                k = bytearray(NLE); k[i] ^= delta; k[i + w] ^= delta       # same change in two places one word apart
+                cs.append(pk_case(bytes(k), "N-same-delta-two-places"))
+                k = bytearray(32); k[i] ^= delta; k[i + w] ^= delta
+                cs.append(pk_case(bytes(k), "zero-same-delta-two-places"))
     n = 3000 if tier == "quick" else 100000
     for _ in range(n):
         mask = rng.getrandbits(32)
@@ -75,7 +89,8 @@ def generate(rng, tier):
         cs.append(Case(line, "server-self-B", exp))
     # client's own A relative to an announced modulus: g^a = 0 mod N' (e.g. N' | g^a) must panic, else A = g^a mod N'
     B = (5).to_bytes(32, "little").hex()
-    for g, np, a in [(2, 8, 3), (2, 8, 2), (6, 36, 2), (6, 36, 1), (7, 49, 2), (7, 49, 1), (7, 1, 5), (10, 1000, 3), (10, 1000, 2), (255, 255, 1), (255, 65025, 2)]:
+    for g, np, a in [(1, 6, 5), (1, N, 7), (7, 6, 3), (3, 16, 4), (2, 4, 1), (3, 9, 1), (5, 25, 1), (2, 6, 1), (4, 12, 1), (255, 510, 1), (13, 13 * 17, 1),
+                     (2, 8, 3), (2, 8, 2), (6, 36, 2), (6, 36, 1), (7, 49, 2), (7, 49, 1), (7, 1, 5), (10, 1000, 3), (10, 1000, 2), (255, 255, 1), (255, 65025, 2)]:
         A = pow(g, a, np)
         line = "cli.new 41 42 %d %s %s %s | %s" % (g, np.to_bytes(32, "little").hex(), B, bytes(32).hex(), a.to_bytes(32, "little").hex())
         if A == 0:
